@@ -15,8 +15,50 @@ from vf.props.c06 import parse_text
 EDIF_ADDED = ("EDIF.identifier", "EDIF.rename")
 
 
+def raw_slots(nl):
+    """primitive values of every slot of every element, read without going through any property
+    (a getter or a writer that quietly rewrites a stored flag shows here)"""
+    import enum
+
+    out = {}
+
+    def add(e):
+        vals = []
+        for klass in type(e).__mro__:
+            for slot in getattr(klass, "__slots__", ()):
+                if slot.startswith("__"):
+                    continue
+                v = getattr(e, slot, None)
+                if isinstance(v, (bool, int, str, type(None), enum.Enum)):
+                    vals.append((slot, str(v)))
+        out[str(id(e))] = sorted(vals)
+
+    add(nl)
+    if nl.top_instance is not None:
+        add(nl.top_instance)
+    for L in nl.libraries:
+        add(L)
+        for D in L.definitions:
+            add(D)
+            for P in D.ports:
+                add(P)
+                for x in P.pins:
+                    add(x)
+            for C in D.cables:
+                add(C)
+                for w in C.wires:
+                    add(w)
+            for I in D.children:
+                add(I)
+                for op in I.pins.values():
+                    add(op)
+    return out
+
+
 def snapshot(nl):
+    raw = raw_slots(nl)   # first: model.ident goes through the public getters
     s = model.ident(nl)
+    s["raw"] = raw
     return s
 
 
